@@ -265,7 +265,8 @@ CHECKS["C17"] = dict(
     level_note="Trusted: memsock's single pump goroutine defines the acceptance order (as the single receiver goroutine of a real socket does). Consumer schedules are sampled, not enumerated.",
     technique="rapid-generated bursts x consumer schedules, order-equality oracle, under testing/synctest virtual time and on the real clock",
     assumptions=_TUN_ASSUME[1:2],
-    jobs=[dict(name="bubble", pkg="./tun", go=GO126, test="TestC17B", shards=(2, 8), checks=(1500, 20000), timeout=(600, 3000)),
+    jobs=[dict(name="sock", pkg="./sock", go=GO, test="TestC17Sock", shards=(4, 8), checks=(15, 300), timeout=(600, 3000)),
+          dict(name="bubble", pkg="./tun", go=GO126, test="TestC17B", shards=(2, 8), checks=(1500, 20000), timeout=(600, 3000)),
           dict(name="real", pkg="./tun", go=GO, test="TestC17R", shards=(4, 8), checks=(60, 1200), timeout=(600, 3000)),
           dict(name="router", pkg="./rtr", go=GO, test="TestC17Router", shards=(4, 8), checks=(100, 2000), timeout=(600, 3000))],
 )
@@ -394,16 +395,29 @@ CHECKS["C12"] = dict(
 
 # Later additions to the generators, inserted into the rule texts in front of their "Non-trivial =" sentence.
 RULE_ADDENDA = {
+    "C03": "The real-reconnect plans let 0..3 requests be acknowledged before the unacknowledged one; the first request on a newly "
+           "assigned channel must carry sequence number 0.",
+    "C08": "Every payload of 0..6 octets over {00 41 EF BB BF C3 80 FF} for the variable-length types; well-formed UTF-8 texts "
+           "for the character-string types.",
+    "C11": "Mode overwide: every 8-bit sequence number and control code (also those wider than the field) x numbered x "
+           "control/data, compared with the reference apart from the over-wide field's own bits.",
+    "C12": "Job sock, mode tunnel-duplex: the gateway tunnels indications stop-and-wait while the application sends 20..80 events.",
+    "C13": "Scenario close-in-inhibit: the router is closed while a busy inhibit is running, with Sends pending and issued afterwards.",
+    "C16": "A quarter of the datagram plans are bursts of 17..64 small frames sent in one go while the reader is away 0..80 ms.",
     "C04": "A quarter of the UDP plans let the gateway assign the same channel at every reconnect, a third of the reconnects have 1..4 "
-           "in-sequence requests directly behind the connect response, and a fraction of the telegrams are L_Data.con / L_Data.req.",
+           "in-sequence requests directly behind the connect response, stray connect responses arrive mid-stream, and a fraction of the "
+           "telegrams are L_Data.con / L_Data.req.",
     "C06": "Every 1-/2-byte payload and a fifth of the others are also decoded into a variable that holds the decode of the accepted "
            "payload with the most bits set (rapid: a drawn earlier payload) and compared with a decode into a zero value.",
     "C14": "Job race: one lost indication with a count above everything retained arrives in the middle of a burst of 2..6 senders, "
            "nothing trimmed or failing.",
-    "C17": "On raw tunnels and routers a fraction of the telegrams are L_Data.con / L_Data.req.",
+    "C17": "On raw tunnels and routers a fraction of the telegrams are L_Data.con / L_Data.req. Job sock: a router (and group router) "
+           "over real multicast, 0..3 busy indications then a burst of 2..80 indications.",
     "C19": "40 (thorough: 400) fresh child processes whose first Produce calls come from 16 goroutines at once; the slice "
-           "ListSupportedTypes() returned is overwritten and the listing taken again; slices returned by Pack() are kept and must not change.",
+           "ListSupportedTypes() returned is overwritten and the listing taken again; slices returned by Pack() are kept and must not change; numeric aliases (main-k).(sub+k*M) of every registered name are looked up.",
 }
 for _k, _add in RULE_ADDENDA.items():
-    assert " Non-trivial =" in CHECKS[_k]["rule"], _k
-    CHECKS[_k]["rule"] = CHECKS[_k]["rule"].replace(" Non-trivial =", " " + _add + " Non-trivial =", 1)
+    if " Non-trivial =" in CHECKS[_k]["rule"]:
+        CHECKS[_k]["rule"] = CHECKS[_k]["rule"].replace(" Non-trivial =", " " + _add + " Non-trivial =", 1)
+    else:
+        CHECKS[_k]["rule"] += " " + _add
